@@ -320,6 +320,81 @@ def gen_types(full):
         yield ("type", mod_default, t_attr, t_stmt, cd, bd, c_attr, b_attr, g_attr)
 
 
+
+# ---- attribute lists: the access attribute among other attributes, any position, any letter case --------------------
+
+VAR_OTHERS = ["save", "target", "dimension(3)", "volatile", "asynchronous"]
+TYPE_OTHERS = ["extends(t0)", "abstract", "bind(c)"]
+
+
+def gen_attrlists(full):
+    for mod_default in ("none", "private", "public"):
+        for acc in ("none", "public", "private", "protected"):
+            for upper in (False, True):
+                # variables
+                for k in range(0, 3 if full else 2):
+                    for others in itertools.permutations(VAR_OTHERS if full else VAR_OTHERS[:3], k):
+                        for pos in range(0, k + 1) if acc != "none" else (0,):
+                            yield ("attrlist", "variable", mod_default, acc, upper, others, pos)
+                if acc == "protected":
+                    continue
+                for k in range(0, 3):
+                    for others in itertools.permutations(TYPE_OTHERS, k):
+                        if "bind(c)" in others and len(others) > 1:
+                            continue  # a BIND(C) type is neither extensible nor abstract
+                        for pos in range(0, k + 1) if acc != "none" else (0,):
+                            yield ("attrlist", "type", mod_default, acc, upper, others, pos)
+                for others in ((), ("save",)) if False else ((),):
+                    for pos in (0, 1) if acc != "none" else (0,):
+                        yield ("attrlist", "parameter", mod_default, acc, upper, ("parameter",), pos)
+
+
+def run_attrlist_case(st: Stats, case):
+    _, kind, mod_default, acc, upper, others, pos = case
+    attrs = list(others)
+    if acc != "none":
+        attrs.insert(pos, acc.upper() if upper else acc)
+    if upper:
+        attrs = [a.upper() if not a.startswith("extends") else "EXTENDS(t0)" for a in attrs]
+    a = "".join(", " + x for x in attrs)
+    spec = []
+    if mod_default != "none":
+        spec.append(mod_default)
+    spec += ["type :: t0", "  integer :: c0", "end type t0"]
+    if kind == "type":
+        spec += [f"type{a} :: e1", "  integer :: c1", "end type e1"]
+    elif kind == "parameter":
+        spec += [f"integer{a} :: e1 = 1"]
+    else:
+        spec += [f"integer{a} :: e1"]
+    spec += ["integer :: after_1"]
+    src = "\n".join(["module m", "implicit none"] + ["  " + l for l in spec] + ["end module m"]) + "\n"
+    r = fordrun.build_fast({"src/m.f90": src}, DISPLAY_ALL)
+    st.evaluations += 1
+    st.transitions += 1
+    inp = dict(source=src)
+    stratum = "attrlist/" + kind
+    feats = dict(kind=kind, mod_default=mod_default, attr=acc, upper=upper, others="+".join(others), pos=pos,
+                 protected_with_access=bool(kind == "variable" and acc == "protected" and mod_default == "private"))
+    st.nontrivial.add(core.digest(case))
+    if r.error is not None or not r.project or not r.project.modules or "ERROR in file" in r.log or "Error parsing" in r.log:
+        st.violation("ford-failed", stratum, feats, inp, repr(r.error) + r.log[-300:], "parses")
+        st.stratum(stratum, 1)
+        return
+    m = r.project.modules[0]
+    coll = m.types if kind == "type" else m.variables
+    default_access = "private" if mod_default == "private" else "public"
+    want = {"e1": expected(mod_default, acc, "none", "variable" if kind == "variable" else kind), "after_1": default_access, "t0": default_access}
+    got = {e.name.lower(): e.permission for e in list(m.types) + list(m.variables)}
+    bad = 0
+    for k, w in want.items():
+        g = got.get(k, "<missing>")
+        if g != w:
+            bad += 1
+            st.violation("wrong-permission", stratum, dict(feats, name=k, expected=w, observed=g), inp, g, w)
+    st.states.add(core.digest([case, sorted(got.items())]))
+    st.stratum(stratum, bad)
+
 # ---- submodules ------------------------------------------------------------
 
 def run_submodule_case(st: Stats, case):
@@ -372,6 +447,8 @@ def work(chunk):
             run_module_case(st, default, dpos, ents, ctx, stratum)
         elif case[0] == "type":
             run_type_case(st, case)
+        elif case[0] == "attrlist":
+            run_attrlist_case(st, case)
         else:
             run_submodule_case(st, case)
     return st
@@ -379,9 +456,9 @@ def work(chunk):
 
 def all_cases(tier):
     if tier == "quick":
-        cases = list(gen_single([0])) + list(gen_pairs([0])) + list(gen_types(False)) + list(gen_submodules())
+        cases = list(gen_single([0])) + list(gen_pairs([0])) + list(gen_types(False)) + list(gen_submodules()) + list(gen_attrlists(False))
     else:
-        cases = list(gen_single([0, 1, 2])) + list(gen_pairs([0, 1, 2])) + list(gen_types(True)) + list(gen_submodules())
+        cases = list(gen_single([0, 1, 2])) + list(gen_pairs([0, 1, 2])) + list(gen_types(True)) + list(gen_submodules()) + list(gen_attrlists(True))
     return cases
 
 
@@ -420,6 +497,7 @@ def main(tier, replay_path=None):
               "(singles), all ordered pairs of different kinds over a reduced value set, "
               + ("3 embedding contexts, " if tier == "thorough" else "") +
               "types: module default x type attr/stmt x component default x binding default x component/binding/generic attributes; "
+              "attribute lists: access attribute at every position among <= 2 other attributes (variables, parameters, types incl. extends/abstract/bind(c)), both letter cases; "
               "submodules: singles and ordered pairs. distinct_nontrivial = distinct legal configurations; states = distinct (configuration, observed permissions)"),
         assumptions=[
             "combinations that are illegal Fortran (access given twice, protected on non-variables, access attribute on procedures/interfaces) are not generated",
